@@ -144,6 +144,7 @@ let parse_prog (text : string) : pinfo =
           | 'R' | 'r' -> (match !last_susp with Some e -> last_susp := None; [OFire (nat_of_int e)] | None -> [])
           | 'E' -> let (e, _) = num tok 1 in [OFire (nat_of_int e)]
           | 'V' -> []
+          | 'L' -> []                                   (* the caller yields: no model step *)
           | 'T' -> raise (Unsupported "try_sync (T)")
           | 'Y' -> raise (Unsupported "future_sync (Y)")
           | 'I' | 'J' | 'G' | 'H' | 'N' | 'K' | 'Z' -> raise (Unsupported "pipes")
